@@ -9,6 +9,7 @@ from __future__ import annotations
 
 import datetime
 import json
+import os
 import random
 import shutil
 import urllib.request
@@ -169,6 +170,22 @@ def build(case: dict, d: Path) -> dict:
                 (root / "src" / f"u{k}.py").write_text("x = 1\n")
                 (root / "src" / f"u{k}.py.license").mkdir()
             info["many"].append(f"src/u{k}.py")
+    elif o in ("gitmodules_empty_path", "gitmodules_not_utf8", "ignored_name_not_utf8", "covered_name_not_utf8"):
+        import subprocess
+        if o == "gitmodules_empty_path":
+            (root / ".gitmodules").write_text('[submodule "x"]\n\tpath = \n\turl = https://example.com/x.git\n')
+        elif o == "gitmodules_not_utf8":
+            (root / ".gitmodules").write_bytes(b'[submodule "x"]\n\tpath = caf\xe9\n\turl = https://example.com/x.git\n')
+        elif o == "ignored_name_not_utf8":
+            (root / ".gitignore").write_text("*.log\n")
+            with open(os.fsencode(str(root)) + b"/caf\xe9.log", "w") as fh:
+                fh.write("log\n")
+        else:
+            with open(os.fsencode(str(root)) + b"/src/na\xefve.py", "w") as fh:
+                fh.write(GOOD + "x = 1\n")
+        if o != "covered_name_not_utf8":
+            genv = dict(os.environ, GIT_CONFIG_GLOBAL="/dev/null", GIT_CONFIG_SYSTEM="/dev/null", HOME=str(d))
+            subprocess.run(["git", "init", "-q"], cwd=root, env=genv, check=True, capture_output=True)
     elif o == "template_bad_syntax":
         (root / ".reuse" / "templates").mkdir(parents=True)
         (root / ".reuse" / "templates" / "broken.jinja2").write_text("{% for x in copyright_lines %}\n{{ x }\n")
@@ -268,6 +285,7 @@ def run(ctx: core.Ctx) -> int:
               "template_bad_syntax": "grey", "dot_license_not_utf8": "valid", "licenses_same_identifier": "invalid",
               "dep5_and_nested_toml": "invalid", "covered_terminator_run": "valid",
               "two_files_fail_annotate": "valid", "three_files_fail_annotate": "valid",
+              "gitmodules_empty_path": "valid", "gitmodules_not_utf8": "valid", "ignored_name_not_utf8": "valid", "covered_name_not_utf8": "valid",
               "template_raises": "grey", "template_undefined": "grey", "template_garbles_expression": "grey", "dot_license_is_directory": "grey"}
     for o, cls in others.items():
         cmds = list(all_cmds) + (["convert-dep5"] if o.startswith("dep5") else [])
@@ -277,7 +295,10 @@ def run(ctx: core.Ctx) -> int:
             cmds = ["lint", "spdx", "lint-file"]
         if o.endswith("_files_fail_annotate"):
             cmds = ["lint", "annotate-many", "annotate-recursive"]
-        cases.append({"devs": [], "other": o, "class": cls, "cmds": cmds, "label": json.dumps(o)})
+        cases.append({"devs": [], "other": o, "class": cls, "cmds": cmds, "label": json.dumps(o),
+                      # what a terminal or a pipe does with a file name that is not UTF-8 is the real interpreter's business,
+                      # not that of click's test runner: these inputs go through the real executable
+                      "subprocess": o in ("covered_name_not_utf8", "ignored_name_not_utf8")})
     for g in rnd.sample(gens, 8 if q else 40):        # the real executable on a sample
         cases.append({"devs": g["devs"], "other": "", "class": g["class"], "cmds": ["lint", "annotate"], "subprocess": True,
                       "label": json.dumps(["subprocess", [[d["key"], d["type"]] for d in g["devs"]]])})
